@@ -6,6 +6,7 @@ mod engine_b;
 mod engine_d;
 mod diag_n;
 mod engine_n;
+mod np_n;
 mod engine_r;
 mod gram;
 mod lexstub;
@@ -93,6 +94,7 @@ fn real_main(args: &[String]) -> i32 {
                     }
                 }
                 Some("N") => engine_n::replay_main(&v, p, quiet),
+                Some("N-np") => np_n::replay(&v, p),
                 Some("D") => engine_d::replay_main(&v, p, quiet),
                 Some("B") => engine_b::replay_main(&v, p, quiet),
                 _ => {
